@@ -97,4 +97,26 @@ Proof.
   - apply bind_ret_er in H. exfalso. eapply nofail_e_serialize; eauto.
 Qed.
 
+(* one statement for every operation of op2, listing exactly the classes with an effect *)
+Theorem C11_all_ops :
+  tables_ok11 T -> forall w o e w',
+  Core w -> run2 o w = Val (ER e, w') ->
+  obs_eq_upto_garbage w w' \/
+  (exists o1, o = Op1 o1 /\ K11_move_noname T tab_el tab_en check_fn LATEST root_attrs w o1 = true) \/
+  (exists o1, o = Op1 o1 /\ K11_move_refwrite T tab_el tab_en check_fn LATEST root_attrs w o1 = true) \/
+  (exists o1, o = Op1 o1 /\ K11_setref T tab_el tab_en check_fn LATEST root_attrs w o1 = true) \/
+  (exists m buffer filename strict, o = OpLoad m buffer filename strict /\ e = InvalidFileMerge).
+Proof.
+  intros HT w o e w' HC H. destruct (known2 w o) eqn:HK.
+  - right. destruct o as [o1| h | m | m | m buffer filename strict | f v | f v | f | h]; cbn [Known11_2 K11_load_merge] in HK;
+      try discriminate HK.
+    + unfold Known11 in HK. apply Bool.orb_true_iff in HK as [HK|HK]; [apply Bool.orb_true_iff in HK as [HK|HK]|].
+      * left. eauto.
+      * right. left. eauto.
+      * right. right. left. eauto.
+    + right. right. right. exists m, buffer, filename, strict. split; [reflexivity|].
+      unfold Fail2.run2 in HK. rewrite H in HK. destruct e; try discriminate HK. reflexivity.
+  - left. exact (proj1 (C11_fail_no_effect2 HT w o e w' HC HK H)).
+Qed.
+
 End Op2.
